@@ -18,11 +18,20 @@ def fmt_has_epoch(fmt):
 
 
 def paths_for(sc, epoch):
+    """Checkpoint paths of an epoch; formats may use the epoch and the two metrics."""
     p = sc["params"]
+    tm, vm = sc["metrics"][epoch - 1] if 1 <= epoch <= len(sc["metrics"]) else (float("inf"), float("inf"))
+    info = {"epoch": epoch, "train_met": tm, "val_met": vm}
     return (
-        posixpath.normpath(posixpath.join(sc["state_dir"], p["saved_model_fmt"].format(epoch=epoch))),
-        posixpath.normpath(posixpath.join(sc["state_dir"], p["saved_optimizer_fmt"].format(epoch=epoch))),
+        posixpath.normpath(posixpath.join(sc["state_dir"], p["saved_model_fmt"].format(**info))),
+        posixpath.normpath(posixpath.join(sc["state_dir"], p["saved_optimizer_fmt"].format(**info))),
     )
+
+
+def collides(sc, epoch, earlier):
+    """Does a checkpoint path of ``epoch`` equal one of an epoch in ``earlier``?"""
+    mine = set(paths_for(sc, epoch))
+    return any(mine & set(paths_for(sc, e)) for e in earlier if e != epoch)
 
 
 def state_files(fs, sc):
@@ -77,7 +86,7 @@ def check_after_update(job, res, crashed_before):
             if not want <= files:
                 res.violate("keep2.superset", f"after update {last} missing {sorted(want - files)}")
             res.bump("orphans_after_crash", len(files - want))
-    elif unique:
+    else:
         want = set()
         for r in rows:
             want |= set(paths_for(sc, int(r["epoch"])))
@@ -86,20 +95,26 @@ def check_after_update(job, res, crashed_before):
 
 
 def expected_loadable(sc, rows):
-    """Epochs whose checkpoints must be loadable given recorded rows (section 7)."""
+    """Epochs whose checkpoints must be loadable with their own stamp given the recorded rows: the
+    last, the best and (if everything is kept) every recorded epoch, unless a LATER recorded epoch
+    was written to the same path (formats that do not separate epochs, section 7)."""
     if not rows:
         return {}
-    last = int(rows[-1]["epoch"])
+    epochs = [int(r["epoch"]) for r in rows]
+    last = epochs[-1]
     best = best_epoch(rows, sc["best_is_train"])
-    unique = fmt_has_epoch(sc["params"]["saved_model_fmt"]) and fmt_has_epoch(sc["params"]["saved_optimizer_fmt"])
+    cand = {}
+    if best:
+        cand[best] = "best"
+    if not sc["params"]["keep_last_and_best_only"]:
+        for e in epochs:
+            cand.setdefault(e, "recorded")
+    cand[last] = "last"
     out = {}
-    if sc["params"]["keep_last_and_best_only"] or unique:
-        if best:
-            out[best] = "best"
-    if unique and not sc["params"]["keep_last_and_best_only"]:
-        for r in rows:
-            out.setdefault(int(r["epoch"]), "recorded")
-    out[last] = "last"
+    for e, role in cand.items():
+        later = [l for l in epochs if l > e]
+        if not collides(sc, e, later):
+            out[e] = role
     return out
 
 
@@ -149,10 +164,12 @@ def check_recovery(job, res, twin_rows, ctx):
                 bad = ("optimizer", os_)
             if bad:
                 delta = sorted(int(x - epoch) if float(x).is_integer() and abs(x) < 1e6 else "garbage" for x in bad[1])
+                src = [int(x) for x in bad[1] if float(x).is_integer() and 1 <= x < epoch]
+                stale = "colliding-earlier-epoch" if len(bad[1]) == 1 and src and set(paths_for(sc, src[0])) & set(paths_for(sc, epoch)) else "other"
                 res.violate(
                     "recover.params",
                     f"{role} epoch {epoch}: loaded {bad[0]} carries the stamp of epoch(s) {sorted(bad[1])}",
-                    role=role, part=bad[0], delta=str(delta), **ctx,
+                    role=role, part=bad[0], delta=str(delta), stale=stale, **ctx,
                 )
                 return False
             if which == "both":
@@ -188,6 +205,7 @@ def crash_context(job, n_crashes, fault):
         "model_fmt_epoch": fmt_has_epoch(sc["params"]["saved_model_fmt"]),
         "optim_fmt_epoch": fmt_has_epoch(sc["params"]["saved_optimizer_fmt"]),
         "fmt_unique": fmt_has_epoch(sc["params"]["saved_model_fmt"]) and fmt_has_epoch(sc["params"]["saved_optimizer_fmt"]),
+        "path_collides": bool(job.in_update) and collides(sc, job.in_update, range(0, job.in_update)),
         "fault": fault["kind"] if fault else None,
         "n_faults": n_crashes,
         "hist_appended": hist,
@@ -224,7 +242,7 @@ def run_job(sc, res, twin=None):
                     while job.ctrl.get_last_epoch() < job.n and job.ctrl.continue_training():
                         e = job.ctrl.get_last_epoch() + 1
                         mp, op = paths_for(sc, e)
-                        unique = fmt_has_epoch(sc["params"]["saved_model_fmt"]) and fmt_has_epoch(sc["params"]["saved_optimizer_fmt"])
+                        unique = not collides(sc, e, range(0, e))
                         job._orphan_at_update_start = unique and (mp in fs.files or op in fs.files)
                         before = None if unique else fs.snapshot()
                         mark = len(fs.oplog)
@@ -408,6 +426,9 @@ def generate(rng, tier, index):
         base = rng.choice([0.123456, 0.5, 1.25, 2.34565])
         sc["metrics"] = [[base * (1 + rng.randrange(-4, 5) * 2e-6), base * (1 + rng.randrange(-4, 5) * 2e-6)] for _ in sc["metrics"]]
         sc["offgrid"] = True
+        for k in ("saved_model_fmt", "saved_optimizer_fmt"):
+            if "_met" in sc["params"][k]:  # metric-valued names would differ between raw and re-read values
+                sc["params"][k] = {"saved_model_fmt": "model_{epoch:03d}.pt", "saved_optimizer_fmt": "optim_{epoch:03d}.pt"}[k]
     sc["_plan"] = "enumerate" if (tier == "thorough" or index % 4 == 0) else "sample"
     sc["_plan_seed"] = rng.randrange(1 << 30)
     return sc
@@ -546,7 +567,7 @@ ASSUMPTIONS = [
     "learning rates compared to print precision (rel 1e-3), everything else exactly",
     "loadability after a crash is required for last and best; for every recorded epoch only if everything is kept and both formats contain the epoch field",
 ]
-GROUP_KEYS = ("oracle", "exc", "fmt_unique", "keep2", "hist_appended", "fault", "role", "part")
+GROUP_KEYS = ("oracle", "exc", "fmt_unique", "path_collides", "keep2", "hist_appended", "fault", "role", "part")
 
 
 def reset_caches():
